@@ -16,6 +16,8 @@ replay = F.replay
 
 def run(ctx, model_ok, deep=False):
     F.run_suites(ctx, model_ok, deep, [
+        ("callback-admission", S.callback_admission_suite, S.falsify_accept,
+         "per key x alg attribute (absent, two admissible) x algorithm left by the callback (none, four of the family, one foreign) x style (writes alg only and keeps the key setkey installed / re-installs the same item / reads the configuration first) x header alg in {attribute, callback alg, admissible}: validly signed token accepted exactly when the documented setkey table admits (alg, key) and the pinned algorithm is the header's", False),
         ("callbacks", S.callbacks_suite, S.falsify_callbacks,
          "21 single steps + 120 (quick) / all 441 (thorough) two-step programs x 5 claim-check configurations x 9 payloads x signed/unsigned x return 0/3; reference = same checker without callback", False),
         ("alg-matrix-sample", 120 if not (ctx.tier == "thorough" or deep) else None, S.falsify_accept,
